@@ -160,10 +160,6 @@ Definition keyed_at (kf : row -> option key) (rows : list row) (i : nat) (k : ke
 Definition uniq_on (kf : row -> option key) (rows : list row) : Prop :=
   forall i j k, keyed_at kf rows i k -> keyed_at kf rows j k -> i = j.
 
-(** the list of keys carried by the rows, in order *)
-Definition somes (kf : row -> option key) (rows : list row) : list key :=
-  flat_map (fun r => match kf r with Some k => [k] | None => [] end) rows.
-
 Lemma somes_app kf a b : somes kf (a ++ b) = somes kf a ++ somes kf b.
 Proof. unfold somes; apply flat_map_app. Qed.
 
